@@ -13,7 +13,7 @@ func init() {
 	register("C30", []string{"./internal/arenaskl"}, runC30)
 	register("C34", []string{"./internal/cache"}, runC34)
 	propExplain["C30"] = "Decides the publication-order clause of C30 in arenaskl.Skiplist.addInternal: the new node is fully built (newNode) and, at every level, its tower links are initialised before the CAS on the predecessor's next pointer can publish it; the back-pointer CAS of the successor happens only after that publishing CAS succeeded; outside initialisation the link words are modified only by compare-and-swap; the list height only by CAS (and Reset). Does not decide the interleavings themselves (model checking)."
-	propExplain["C34"] = "Decides structural clauses of C34 in the block cache: a value's memory is freed only by Value.Release on the edge where the reference count dropped to zero (and by the owner-only Free); an entry's value is read-and-referenced (acquireValue) only with the shard mutex held (read or write) and replaced (setValue) only with it write-held, established by a lockset over the cache package with requires-held summaries; a read entry publishes its value/error before it wakes the waiters. Does not decide 'latest value for the exact key' or capacity accounting (value-level)."
+	propExplain["C34"] = "Decides structural clauses of C34 in the block cache: a value's memory is freed only by Value.Release on the edge where the reference count dropped to zero (and by the owner-only Free); an entry's value is read-and-referenced (acquireValue) only with the shard mutex held (read or write) and replaced (setValue) only with it write-held, established by a lockset over the cache package with requires-held summaries; a read entry publishes its value/error before it wakes the waiters. (P1) the reference-counted read entry obtained on a miss is released or handed to the caller in the ReadHandle on every path of GetWithReadHandle. Does not decide 'latest value for the exact key' or capacity accounting (value-level)."
 	propTechnique["C30"] = "SSA ordering dataflow inside the CAS loop, who-may-write on atomic fields"
 	propTechnique["C34"] = "who-may-call, SSA guard, lockset with requires-held summaries over the cache package"
 }
@@ -200,6 +200,22 @@ func runC34(c *Ctx) {
 		fl.MaxDepth = 0
 		res := fl.Analyze(fn, emptyState())
 		c.Require("C34.O2", res, AnyReturn, "every path of shard.set replaces the key's value (no stale value survives a Set)", []string{"value-installed"})
+	}
+	// P1: the read entry obtained on a miss is reference counted; the reference is dropped
+	// (unrefAndTryRemoveFromMap / setReadValue / setReadError) or handed to the caller inside the
+	// ReadHandle on every path — a leaked entry stays in the read map and keeps serving its value
+	// after Delete / EvictFile / a newer Set.
+	if fn := c.Fn("C34.P1", "cache.(*Handle).GetWithReadHandle"); fn != nil {
+		spec := PairSpec{Rule: "C34.P1", What: "the read entry acquired on a cache miss is released or handed to the caller", Release: []string{"unrefAndTryRemoveFromMap", "setReadValue", "setReadError"}}
+		n := 0
+		for _, in := range instrs(fn, CallTo("cache.(*readEntry).waitForReadPermissionOrHandle")) {
+			call := in.(*ssa.Call)
+			c.Pairing(spec, fn, call, stripConv(call.Common().Args[0]))
+			n++
+		}
+		if n == 0 {
+			c.Unresolved("C34.P1", "waitForReadPermissionOrHandle not called in GetWithReadHandle")
+		}
 	}
 	// O1: read entry publishes before waking waiters
 	for _, spec := range []struct {
